@@ -24,7 +24,7 @@ RULE = ("cross_val_score: random scattered datasets (14..34 points, scalar or 2-
         "score/score_estimator on held-out rows incl. constant data. train_test_split: arrays of distinct values (1-D and 2-D shaped), "
         "with/without weights, 1..3 components, random and blocked (spacing/shape): complementary, aligned, whole blocks. SplineCV: grids with a "
         "unique best, duplicate candidates and exact ties between different candidates (mindist below every distance), weights, scorers, "
-        "delayed: chosen parameters = first arg-max of scores_, scores_ = means of independent cross_val_score runs, prediction bit-identical "
+        "delayed and the deprecated client= path (stand-in client, non-default scorers, data with outliers): chosen parameters = first arg-max of scores_, scores_ = means of independent cross_val_score runs, prediction bit-identical "
         "to Spline(best) fitted to all rows. Non-trivial = imperfect fit (score != 1/0); distinct = distinct configuration and data seed.")
 ASSUMPTIONS = [
     "the individual estimators (Trend, Spline, KNeighbors, Chain, Vector) are oracles: fit/predict of an independent sklearn.base.clone on the training rows is taken as the reference (their own correctness is C01-C03, C06, C09, C10)",
@@ -348,6 +348,21 @@ def _tts_case(rnd, vd, kind):
                 "# verde.train_test_split on %d points, %s %s; see harness/c12.py tts_case" % (n, bkw, kw), kind)
 
 
+class _Future:
+    def __init__(self, value):
+        self.value = value
+
+    def result(self):
+        return self.value
+
+
+class StandInClient:
+    "stand-in for dask.distributed.Client: runs the submitted call at once and returns a future-like object"
+
+    def submit(self, function, *args, **kwargs):
+        return _Future(function(*args, **kwargs))
+
+
 def splinecv_case(rnd, vd, kind):
     import dask  # noqa: F401
     from sklearn.model_selection import KFold, ShuffleSplit
@@ -355,7 +370,12 @@ def splinecv_case(rnd, vd, kind):
     coords, data, weights, rs = make_data(rnd, 1, weighted, n=rnd.randint(14, 26))
     n = coords[0].size
     data, weights = data[0], (weights[0] if weighted else None)
-    if kind == "splinecv-unique":
+    client = kind == "splinecv-client"
+    if client:
+        # outliers make R2, MSE and MAE rank the candidates differently
+        data = data.copy()
+        data[::5] += np.round(rs.normal(0, 6, data[::5].size) * 256) / 256
+    if kind in ("splinecv-unique", "splinecv-client"):
         mindists = rnd.choice([[0.5], [1e-5, 0.5], [0.1, 1.0]])
         dampings = rnd.sample([1e-4, 1e-2, 1.0, 100.0], rnd.randint(2, 3))
     elif kind == "splinecv-duplicates":
@@ -369,13 +389,22 @@ def splinecv_case(rnd, vd, kind):
         mindists = rnd.choice([[1e-200, 1e-180], [1e-180, 1e-200], [1e-190, 1e-200, 1e-180]])
         dampings = rnd.sample([1e-3, 1e-1, 10.0], 2)
     scoring = rnd.choice([None, None, "neg_mean_squared_error", "neg_mean_absolute_error"])
+    if client:
+        scoring = rnd.choice(["neg_mean_squared_error", "neg_mean_absolute_error", "neg_mean_absolute_error"])
+        if kind == "splinecv-client" and len(dampings) < 4:
+            dampings = [1e-4, 1e-2, 1.0, 100.0]
     seed = rnd.randint(0, 10 ** 6)
     cvf = rnd.choice([lambda: None, lambda: KFold(n_splits=3, shuffle=True, random_state=seed),
                       lambda: ShuffleSplit(n_splits=3, test_size=0.3, random_state=seed)])
     q = (rs.uniform(0, 6, 5), rs.uniform(-3, 3, 5))
     with warnings.catch_warnings():
         warnings.simplefilter("ignore")
-        scv = vd.SplineCV(mindists=mindists, dampings=dampings, cv=cvf(), scoring=scoring).fit(coords, data, weights)
+        serial = vd.SplineCV(mindists=mindists, dampings=dampings, cv=cvf(), scoring=scoring).fit(coords, data, weights)
+        if client:
+            # the (deprecated) client= path must rank by the requested metric and choose like the serial path
+            scv = vd.SplineCV(mindists=mindists, dampings=dampings, cv=cvf(), scoring=scoring, client=StandInClient()).fit(coords, data, weights)
+        else:
+            scv = serial
         scores = [float(s) for s in scv.scores_]
         chosen = (float(scv.mindist_), float(scv.damping_))
         pred_cv = scv.predict(q)
@@ -388,6 +417,8 @@ def splinecv_case(rnd, vd, kind):
         except Exception as exc:  # a crash of the delayed path is a difference from the serial path
             others = [(-1.0, -1.0)]
             delayed_error = "%s: %s" % (type(exc).__name__, exc)
+        if client:
+            others.append((float(serial.mindist_), float(serial.damping_)))
         table = []
         import itertools
         for md, dm in itertools.product(mindists, dampings):
@@ -396,10 +427,11 @@ def splinecv_case(rnd, vd, kind):
         cN(n), cDl(mindists), cDl(dampings), clist([cDl(t) for t in table]), cDl(scores), cpair(cD(chosen[0]), cD(chosen[1])),
         cDl(pred_cv), cDl(pred_ref), clist([cpair(cD(a), cD(b)) for a, b in others]))
     ties = len(set(scores)) < len(scores)
-    return Case({"mindists": mindists, "dampings": dampings, "scoring": scoring, "n": n, "weighted": weighted, "data_seed": int(rs.randint(0, 2 ** 31 - 1))},
+    return Case({"mindists": mindists, "dampings": dampings, "scoring": scoring, "n": n, "weighted": weighted, "client": client, "data_seed": int(rs.randint(0, 2 ** 31 - 1))},
                 {"scores_": scores, "mindist_": chosen[0], "damping_": chosen[1], "exact_ties": ties, "delayed_choice": others[0],
                  "delayed_error": delayed_error}, term,
-                "# verde.SplineCV(mindists=%s, dampings=%s, scoring=%s) on %d random points; see harness/c12.py splinecv_case" % (mindists, dampings, scoring, n),
+                "# verde.SplineCV(mindists=%s, dampings=%s, scoring=%s%s) on %d random points; see harness/c12.py splinecv_case" % (
+                    mindists, dampings, scoring, ", client=StandInClient()" if client else "", n),
                 kind + (":ties" if ties else ""))
 
 
@@ -421,6 +453,8 @@ def generate(tier, seed):
     for k in ("splinecv-unique", "splinecv-duplicates", "splinecv-ties"):
         for i in range(5 * m):
             cases.append(splinecv_case(rnd, vd, k))
+    for i in range(8 * m):
+        cases.append(splinecv_case(rnd, vd, "splinecv-client"))
     return cases
 
 
